@@ -1201,11 +1201,9 @@ func c02CoqCase(id int, s *c02Site, i int, impl, ref string) (kind, text string)
 		resK = nil
 	case "un":
 		o := map[string]string{"-": "Neg", "^": "BitNot", "+": "Pos"}[s.Op]
-		f := "FVar"
-		if s.Ctx == "ifc" {
-			f = "FIface"
-		}
-		ck = fmt.Sprintf("(CUn %s %s)", o, f)
+		// the interface rows of neg / bitNot are unreachable (their kind switch inspects the interface type itself):
+		// `var r interface{} = -x` computes into a typed temporary
+		ck = fmt.Sprintf("(CUn %s FVar)", o)
 		if s.Ctx == "ifa" {
 			ck = fmt.Sprintf("(CUnIfa %s)", o)
 		}
